@@ -320,13 +320,31 @@ def gen_sequences(atoms, keys, maxlen):
                     yield ('css', {}, [[key, list(seq), imp]])
 
 
-def gen_conventions(atoms, keys, variants):
-    for a in atoms:
-        for key in keys:
-            for syn in SYNTAXES:
+def gen_conventions(atoms, keys, variants, quick):
+    if quick:
+        # three faces of the product instead of the whole of it (the thorough tier runs the whole product)
+        for a in atoms:                                   # every atom x every option variant
+            for key in ('m', 'lh'):
                 for o in variants:
+                    yield ('css', o, [[key, [a], False]])
+        for a in atoms:                                   # every atom x every key x every syntax convention
+            for key in keys:
+                for syn in SYNTAXES:
                     for imp in (False, True):
-                        yield (syn, o, [[key, [a], imp]])
+                        yield (syn, {}, [[key, [a], imp]])
+        for a in ATOMS_SMALL_Q:                           # small atom list x the whole remaining product
+            for key in keys:
+                for syn in SYNTAXES:
+                    for o in variants:
+                        for imp in (False, True):
+                            yield (syn, o, [[key, [a], imp]])
+    else:
+        for a in atoms:
+            for key in keys:
+                for syn in SYNTAXES:
+                    for o in variants:
+                        for imp in (False, True):
+                            yield (syn, o, [[key, [a], imp]])
     # every key of the table (all unitless / unit-taking properties) with every unit-less number shape and alias
     for key in PROPS:
         for a in [n + u for n in NUM_SHAPES for u in ('', 'p', 'e', 'px')] + ['#fc0', '#0b', '#0a0b0c.25']:
@@ -449,11 +467,15 @@ def run(tier, seed):
     variants = OPTION_VARIANTS
     c = Clause('conventions-options', 'B', 'every atom of {%d number shapes} x {%d units incl. none, aliases p e x r} + %d colour forms'
                % (len(NUM_SHAPES), len(UNITS), len(COLOR_SAMPLE) + len(COLOR_ALPHA_SAMPLE)),
-               'single values x keys %r x syntaxes %r x %d option variants x {!, no !}; plus every atom before/after 5 fixed neighbours on m / lh'
-               % (keys, SYNTAXES, len(variants)),
+               ('single values: (a) every atom x keys m, lh x %d option variants, css; (b) every atom x keys %r x syntaxes %r x {!, no !}, '
+                'default options; (c) the %d atoms of value-sequences x those keys x syntaxes x option variants x {!, no !}'
+                % (len(variants), keys, SYNTAXES, len(ATOMS_SMALL_Q)) if quick else
+                'single values x keys %r x syntaxes %r x %d option variants x {!, no !}' % (keys, SYNTAXES, len(variants))) +
+               '; plus every key of the table x every number shape with unit none/p/e/px x css, stylus x 2 unit settings; plus every atom '
+               'before/after 5 fixed neighbours on m / lh',
                'a case is (syntax, options, key, value, important); output must equal spec_css_line under that syntax convention and options',
                exhaustive=True)
-    run_parallel(c, 'bounded.c05', 'check_line', gen_conventions(ATOMS_FULL, keys, variants), chunk=3000)
+    run_parallel(c, 'bounded.c05', 'check_line', gen_conventions(ATOMS_FULL, keys, variants, quick), chunk=3000)
     out.append(c.done())
 
     patoms = ['0', '10', '-.5', '10p', '#fc0', '#0b.5'] if quick else ['0', '10', '1.', '-.5', '10p', '-2e', '#fc0', '#0b.5']
@@ -464,7 +486,7 @@ def run(tier, seed):
     run_parallel(c, 'bounded.c05', 'check_line', gen_plus_pairs(patoms, pkeys), chunk=3000)
     out.append(c.done())
 
-    n = 40000 if quick else 1500000
+    n = 25000 if quick else 1500000
     c = Clause('random-long', 'B', 'random.Random(seed): 1..4 `+`-joined properties, 1..6 values each from the full atom list, random key, '
                'syntax and union of 0..3 option variants', '%d cases, seed %d' % (n, seed),
                'a case is (syntax, options, properties); output must equal spec_css_line', exhaustive=False)
